@@ -773,6 +773,10 @@ func (o *Array) UnmarshalBinary(data []byte) error {
 	if size <= 0 {
 		return nil
 	}
+	if size > int64(len(data)) {
+		return errors.New("invalid ugo.Array data size")
+	}
+
 	ub := 1 + offset + int(size)
 	if len(data) < ub {
 		return errors.New("invalid ugo.Array data size")
@@ -848,7 +852,7 @@ func (o *Map) UnmarshalBinary(data []byte) error {
 		return nil
 	}
 
-	if len(data) < 1+offset+int(size) {
+	if size > int64(len(data)) || len(data) < 1+offset+int(size) {
 		return errors.New("invalid ugo.Map data size")
 	}
 
@@ -995,6 +999,10 @@ func (o *CompiledFunction) UnmarshalBinary(data []byte) error {
 
 	if size <= 0 {
 		return nil
+	}
+
+	if size > int64(len(data)) || len(data) < 1+offset+int(size) {
+		return errors.New("invalid ugo.CompiledFunction data size")
 	}
 
 	rd := bytes.NewReader(data[1+offset : 1+offset+int(size)])
